@@ -51,6 +51,10 @@ CLAIMED = {
  'C17': dict(text='Proof (Coq): the complete real budget/components is a permutation of one row per key of the independent and dependent vectors with the leaf uid and |u_component| (NoDup, exact length); root-sum-square = u(y) for uncorrelated influences (via the LPU theorem); trim/sort/reverse/max_number only filter, order and truncate (every number instance); influences=[...] and intermediate=True for real y; complex budgets under the pairing invariant, with the invariant derived from "both components present". Complex intermediate/influences rows, label texts, timsort: correspondence (partial). Four refuted cases (partial complex pair, real y with complex influence, components attribute error, zero rows for dependent influences of a complex y) are known findings.',
              note='Coq kernel, Reals axioms/classic/funext, exact correspondence of all rows (labels, u by bits, uids, exception classes).',
              technique='Coq proof (permutation/sortedness list lemmas over the kernel vectors, LPU) + exact row-by-row correspondence', ref='6 C17'),
+
+ 'C11': dict(text='Proof (Coq) over validation predicates regenerated from core.py/lib.py each run (source order, exception classes), evaluated on extended reals with IEEE NaN/inf semantics: accept <=> in-limits for ureal, ucomplex (scalar/2-seq/4-seq, 1e-10 tolerance), multiple_ureal (all lengths), set_correlation_real and core.set_correlation on elementary reals in any state; exception class of every rejection; no-bad-number invariant over every program of declarations; rejected ureal/set_correlation leave the state identical; the kernel model agrees with the generated decisions. Estimators, ucomplex/multiple_ucomplex state-level no-effect, method dispatch: correspondence/oracle (partial). NaN correlation accepted, partial effects of a rejected complex set_correlation, AttributeError rejections, complex estimate with r = 0, collinear |r| = 1+ulp are refuted (known findings).',
+             note='Coq kernel, Reals axioms/classic/funext, float primitives; translator tools/tr_core_checks.py; class-table x boundary correspondence.',
+             technique='Coq proof (decision tables over IEEE classes, induction over declaration programs) over translator-generated predicates + correspondence', ref='6 C11'),
 }
 NA_REASON = 'machinery for this property is not built yet in this revision (planned: see DESIGN.md section 6); not claimed until its check exists'
 m = {
